@@ -126,7 +126,16 @@ func c17run(t *testing.T, out *verifh.Out, scns []c17scn, dir string) {
 						ss.ReplicationLag = &l
 					}
 					if r.broken {
-						ss.LastSQLErrno = 1146
+						// permanently broken: by the SQL thread, by the IO thread, or by the IO thread while the SQL thread
+						// shows a transient error of its own
+						switch (i + r.lag/1000 + r.resetup) % 3 {
+						case 0:
+							ss.LastSQLErrno = 1146
+						case 1:
+							ss.LastIOErrno = 1236
+						case 2:
+							ss.LastSQLErrno, ss.LastIOErrno = 1062, 13114
+						}
 						ss.ReplicationState = mysql.ReplicationError
 					}
 					ns.SlaveState = ss
